@@ -938,15 +938,11 @@ theorem loopRead_tr (s : S) (item : RxItem) (ok : Bool) :
     have h1 : s1 = (s.packetHandle p ok).1 := by rw [hx]
     have f : Fr s1 s2 := by apply Fr.of0; simp [Fr0, evsOf, s2]
     exact Tr.frame_right (h1 ▸ packetHandle_tr s p ok (by simp [hc])) f.frq
-  case case8 c hc mp p s1 rc1 hx s2 h1 h2 h3 h4 =>
+  case case8 c hc p s1 rc1 hx s2 h1 h2 h3 =>
     have h1 : s1 = (s.packetHandle p ok).1 := by rw [hx]
     have f : Fr s1 s2 := by apply Fr.of0; simp [Fr0, evsOf, s2]
     exact Tr.frame_right (h1 ▸ packetHandle_tr s p ok (by simp [hc])) f.frq
-  case case9 c hc mp p s1 rc1 hx s2 h1 h2 h3 c' h4 =>
-    have h1 : s1 = (s.packetHandle p ok).1 := by rw [hx]
-    have f : Fr s1 s2 := by apply Fr.of0; simp [Fr0, evsOf, s2]
-    exact Tr.frame_right (h1 ▸ packetHandle_tr s p ok (by simp [hc])) f.frq
-  case case10 c hc mp p s1 rc1 hx s2 h1 h2 h3 =>
+  case case9 c hc p s1 rc1 hx s2 h1 h2 c' h3 =>
     have h1 : s1 = (s.packetHandle p ok).1 := by rw [hx]
     have f : Fr s1 s2 := by apply Fr.of0; simp [Fr0, evsOf, s2]
     exact Tr.frame_right (h1 ▸ packetHandle_tr s p ok (by simp [hc])) f.frq
